@@ -217,6 +217,10 @@ class GcodeHandlers(object):
             more Gcode commands to execute instead or IGNORE_GCODE_CMD to prevent processing.
         """
         gcode = gcode.upper()
+        if (gcode[1:].isdigit()):
+            # OctoPrint supplies the code as it was written (e.g. "G01"), normalize it to the form
+            # used for the handler names and the extended Gcode settings ("G1")
+            gcode = gcode[0] + str(int(gcode[1:]))
 
         self.state.numCommands += 1
         method = getattr(self, "_handle_" + gcode, self.state.processExtendedGcode)
